@@ -93,6 +93,11 @@ def run(check, prog):
     # T-matrix theory this is rule E8's first obligation (shared with C10)
     from . import c10
     c10.sphere_limit(check, prog, fields=False)
+    # the shift clause is about positions relative to the particle: the hand-off
+    # gives every theory x - x_c, y - y_c, z_c - z of each detector point, in
+    # floating point (rule shared with C07)
+    from . import c07
+    c07.coordinates(check, prog)
 
 
 def pin_exact(check, prog):
